@@ -113,4 +113,90 @@ theorem missing_poison_keys_no_alarm (c : CryptoOps) (cfg : PoisonCfg) (kv : Key
       · rw [List.mem_singleton.1 hf]; exact hq x
       · cases hf
 
+/-! ## 2. a poison record always raises the alarm
+
+`createPoison c pkW k dataLen rnd = .ok P`: `P` is a poison record of envelope kind `k` made with the
+poison key(s) `pkW` (`poison.CreatePoisonRecord` / `CreateSymmetricPoisonRecord`).
+`RoundTripHyps c k pkW cfg.pk …` are the hypotheses of the C01 round trip for that kind with the
+detector's poison key view `cfg.pk` as reader: the key the record was made with occurs ANYWHERE in the
+detector's poison key history (current or rotated), earlier keys do not accidentally open it. -/
+
+/-- **A poison record inside a column value raises the alarm before the value is delivered** (SQL
+proxies). Callbacks are configured; `P` is a poison record of either kind, made with the current or
+a rotated poison key; it is stored alone or embedded: `pre ++ P ++ suf` with arbitrary `suf` and a
+`pre` none of whose positions is processed by the proxy's callback stack (wrapper, poison detector,
+decrypt handler) – see `poison_detected_in_text` for the checkable condition "no `%` in `pre`".
+Then the alarm count returned together with the value is at least 1 – the intrusion callbacks ran
+before `OnColumn` returned, i.e. before anything was delivered – and when running the callbacks
+returns an error the column processing fails (`fatal`): the value is not delivered at all. -/
+theorem poison_detected (c : CryptoOps) (cfg : PoisonCfg) (kv pkW : KeyView) (k : Kind) (dataLen : Nat)
+    (rnd P pre suf : Bytes)
+    (hcb : cfg.hasCallbacks = true)
+    (hP : createPoison c pkW k dataLen rnd = .ok P)
+    (h : RoundTripHyps c k pkW cfg.pk (rnd.take dataLen) (rnd.drop dataLen) P)
+    (hpre : ∀ i, i < pre.length → ∃ hit,
+      headStep [fun _ => Cb.same, fun x => (poisonCallback c cfg x).1, decryptCallback c kv]
+        ((pre ++ P ++ suf).drop i) = .skip hit) :
+    1 ≤ (proxyOnColumn c cfg kv (pre ++ P ++ suf)).2 ∧
+    (cfg.callbackErr = true → (proxyOnColumn c cfg kv (pre ++ P ++ suf)).1 = .fatal) := by
+  obtain ⟨e, rfl, he, hlen, hproc⟩ := createPoison_facts c k pkW cfg.pk dataLen rnd P h hP
+  exact proxyOnColumn_poison c cfg kv k e pre suf hcb he hlen (isPoison_eq_true.2 ⟨_, hproc suf⟩) hpre
+
+/-- … in particular when the bytes before the record contain no `%` (nothing there can look like a
+container), and in particular for the record alone (`pre = suf = []`). -/
+theorem poison_detected_in_text (c : CryptoOps) (cfg : PoisonCfg) (kv pkW : KeyView) (k : Kind) (dataLen : Nat)
+    (rnd P pre suf : Bytes)
+    (hcb : cfg.hasCallbacks = true)
+    (hP : createPoison c pkW k dataLen rnd = .ok P)
+    (h : RoundTripHyps c k pkW cfg.pk (rnd.take dataLen) (rnd.drop dataLen) P)
+    (hpre : ∀ x ∈ pre, x ≠ 37) :
+    1 ≤ (proxyOnColumn c cfg kv (pre ++ P ++ suf)).2 ∧
+    (cfg.callbackErr = true → (proxyOnColumn c cfg kv (pre ++ P ++ suf)).1 = .fatal) :=
+  poison_detected c cfg kv pkW k dataLen rnd P pre suf hcb hP h
+    (by rw [List.append_assoc]; exact c01_skip_of_no_tag_byte _ pre (P ++ suf) hpre)
+
+theorem poison_detected_alone (c : CryptoOps) (cfg : PoisonCfg) (kv pkW : KeyView) (k : Kind) (dataLen : Nat)
+    (rnd P : Bytes)
+    (hcb : cfg.hasCallbacks = true)
+    (hP : createPoison c pkW k dataLen rnd = .ok P)
+    (h : RoundTripHyps c k pkW cfg.pk (rnd.take dataLen) (rnd.drop dataLen) P) :
+    1 ≤ (proxyOnColumn c cfg kv P).2 ∧ (cfg.callbackErr = true → (proxyOnColumn c cfg kv P).1 = .fatal) := by
+  have := poison_detected_in_text c cfg kv pkW k dataLen rnd P [] [] hcb hP h (by intro x hx; cases hx)
+  simpa using this
+
+/-- **AcraTranslator**: a decrypt request (`Decrypt`, `DecryptSym`, … – any handler kind `k'`) whose data
+contains a poison record, and which the client's own keys do not decrypt, raises the alarm and the
+client gets an error (never the poison record's content, and no hint that it was one). -/
+theorem poison_detected_translator (c : CryptoOps) (cfg : PoisonCfg) (kv pkW : KeyView) (k k' : Kind) (dataLen : Nat)
+    (rnd P pre suf : Bytes)
+    (hcb : cfg.hasCallbacks = true)
+    (hP : createPoison c pkW k dataLen rnd = .ok P)
+    (h : RoundTripHyps c k pkW cfg.pk (rnd.take dataLen) (rnd.drop dataLen) P)
+    (hpre : ∀ x ∈ pre, x ≠ 37)
+    (hfail : ∀ m, decryptWithHandler c kv k' (pre ++ P ++ suf) ≠ .ok m) :
+    (translatorDecrypt c cfg kv k' (pre ++ P ++ suf)).1 = .err ∧
+    1 ≤ (translatorDecrypt c cfg kv k' (pre ++ P ++ suf)).2 := by
+  obtain ⟨e, rfl, he, hlen, hproc⟩ := createPoison_facts c k pkW cfg.pk dataLen rnd P h hP
+  unfold translatorDecrypt
+  cases hd : decryptWithHandler c kv k' (pre ++ serBytes e k.id ++ suf) with
+  | ok m => exact absurd hd (hfail m)
+  | panic => exact absurd hd (decryptWithHandler_ne_panic c kv k' _)
+  | err =>
+    simp only [hcb, if_true]
+    refine ⟨trivial, ?_⟩
+    exact translator_poison c cfg k e pre suf hcb he hlen (isPoison_eq_true.2 ⟨_, hproc suf⟩)
+      (by rw [List.append_assoc]; exact c01_skip_of_no_tag_byte _ pre (serBytes e k.id ++ suf) hpre)
+
+/-- the record alone, as the task of the translator's `Decrypt*` calls usually is -/
+theorem poison_detected_translator_alone (c : CryptoOps) (cfg : PoisonCfg) (kv pkW : KeyView) (k k' : Kind)
+    (dataLen : Nat) (rnd P : Bytes)
+    (hcb : cfg.hasCallbacks = true)
+    (hP : createPoison c pkW k dataLen rnd = .ok P)
+    (h : RoundTripHyps c k pkW cfg.pk (rnd.take dataLen) (rnd.drop dataLen) P)
+    (hfail : ∀ m, decryptWithHandler c kv k' P ≠ .ok m) :
+    (translatorDecrypt c cfg kv k' P).1 = .err ∧ 1 ≤ (translatorDecrypt c cfg kv k' P).2 := by
+  have := poison_detected_translator c cfg kv pkW k k' dataLen rnd P [] [] hcb hP h (by intro x hx; cases hx)
+    (by simpa using hfail)
+  simpa using this
+
 end AcraModel.Props.C15
